@@ -225,6 +225,14 @@ pub fn inline(e: &Expr, m: u8, f: u8) -> String {
             let s = format!("{}[{}] = {}", var_name(*x), idx, inline(a, 0, 0));
             if f == 0 { s } else { paren(s) }
         }
+        Expr::IndexOpAssign(op, x, i, a) => {
+            let idx = range_bare(i).unwrap_or_else(|| inline(i, 0, 1));
+            if m <= P_OPASSIGN.0 && f < P_OPASSIGN.1 {
+                format!("{}[{}] {}= {}", var_name(*x), idx, op.text(), inline(a, P_OPASSIGN.1, f))
+            } else {
+                paren(format!("{}[{}] {}= {}", var_name(*x), idx, op.text(), inline(a, P_OPASSIGN.1, 0)))
+            }
+        }
         Expr::Access(a, k) => format!("{}.{}", chain_base(a), k),
         Expr::Size(a) => format!("size({})", inline(a, 0, 1)),
         Expr::Interp(parts) => {
